@@ -243,6 +243,10 @@ def render(nf, trait, ty):
                 subs = render(p[1], p[2], p[3] if len(p) > 3 else "?")
                 variants = [v + s for v in variants for s in subs][:16]
         return variants
+    if k == "ifelse" and ("lit", "") in (nf[2], nf[3]):
+        # a text that is written or left out (`if wanted { format!(..) } else { "" }`): the template, or nothing
+        other = nf[3] if nf[2] == ("lit", "") else nf[2]
+        return (render(other, trait, ty) + [[]])[:16]
     if k == "ifelse":
         a_lit = is_literal_only(nf[2])
         b_lit = is_literal_only(nf[3])
